@@ -421,6 +421,7 @@ pub async fn run_case(case: &KCase, stream_fd: Option<i32>) -> Vec<OpResult> {
         .filter(|e| matches!(e, ClockEvent::Step { .. } | ClockEvent::SetFreq { .. } | ClockEvent::ErrEst { .. }))
         .collect();
     let _ = nh::time::take_nonfinite_seconds();
+    let mut last_local: Vec<Option<u64>> = vec![None; case.sources.len()];
     for op in &case.ops {
         let held_before: Vec<(usize, Option<SnapView>, bool)> = kh::controller_sources(&ctl)
             .into_iter()
@@ -431,6 +432,7 @@ pub async fn run_case(case: &KCase, stream_fd: Option<i32>) -> Vec<OpResult> {
             .collect();
         let mut update = None;
         let mut produced = None;
+        let mut skipped_meas = false;
         match op {
             KOp::Advance { ms } => {
                 tokio::time::advance(Duration::from_millis(*ms as u64)).await;
@@ -490,6 +492,18 @@ pub async fn run_case(case: &KCase, stream_fd: Option<i32>) -> Vec<OpResult> {
                     st.now = st.now.wrapping_add(((*dt_ms as u64) << 32) / 1000);
                     nh::time::timestamp_from_raw(st.now)
                 };
+                // the statements quantify over measurements taken at strictly increasing local times (>= 1 ms apart);
+                // after an external backward change of the clock (Skew) a source's next measurement would not be:
+                // such a measurement is not delivered
+                let raw_now = nh::time::timestamp_raw(now);
+                if let Some(prev) = last_local[i] {
+                    if (raw_now.wrapping_sub(prev) as i64) < ((1i64 << 32) / 1000) {
+                        skipped_meas = true;
+                    }
+                }
+                if !skipped_meas {
+                    last_local[i] = Some(raw_now);
+                }
                 let eff_offset = if case.closed_loop { *offset - stepped } else { *offset };
                 let offset = &eff_offset;
                 let base = |d| InternalMeasurement {
@@ -503,6 +517,7 @@ pub async fn run_case(case: &KCase, stream_fd: Option<i32>) -> Vec<OpResult> {
                 };
                 let periodic = matches!(case.sources[i], SrcKind::OneWay { period: Some(_), .. });
                 let msg = match &mut srcs[i] {
+                    _ if skipped_meas => None,
                     Src::Two(c) => c.handle_measurement(base(NtpDuration::from_seconds(*delay))),
                     Src::One(c) => {
                         let mut m = base(NtpDuration::ZERO);
@@ -556,6 +571,10 @@ pub async fn run_case(case: &KCase, stream_fd: Option<i32>) -> Vec<OpResult> {
         for e in &events {
             if let ClockEvent::Step { raw } = e {
                 stepped += *raw as f64 / 4294967296.0;
+                // the daemon's own steps move the sources' notion of local time along
+                for l in last_local.iter_mut().flatten() {
+                    *l = l.wrapping_add(*raw as u64);
+                }
             }
         }
         let observes = srcs
